@@ -160,6 +160,7 @@ type Runner struct {
 	recI   func(context.Context, int64)
 	rm     metricdata.ResourceMetrics
 	ncol   int
+	salt   int // varies the donor shapes between scenarios
 	ctx    context.Context
 }
 
@@ -250,7 +251,7 @@ func (r *Runner) collect(d string) (metricdata.Aggregation, string, string) {
 	case "own":
 	case "same", "other":
 		var rm *metricdata.ResourceMetrics
-		rm, desc = donate(r.cfg, d, int(vh.Seed())+r.ncol*7+len(r.cfg.FBounds)+r.cfg.MaxSize)
+		rm, desc = donate(r.cfg, d, int(vh.Seed())*31+r.salt*13+r.ncol*7)
 		r.rm = *rm
 	default:
 		r.rm = metricdata.ResourceMetrics{}
@@ -777,6 +778,7 @@ func execScenario(sc int, c *Cfg, table []ranked, ops []SOp, observe string) (li
 	}()
 	s := &ScenCtx{cfg: c, table: table}
 	run := newRunner(c)
+	run.salt = sc
 	lines = append(lines, map[string]any{"ev": "New", "sc": sc, "cfg": c})
 	pending := []AVal{}
 	flush := func() {
